@@ -581,6 +581,14 @@ def closed_loop(ctx, params):
     try:
         nj = params["joiners"]
         st = [Station(1 + i, clock, i) for i in range(1 + nj)] + [Station(100 + i, clock, 3 + i) for i in range(3)]
+        if params.get("layout"):
+            # audit round: stations east / west / south / diagonal of the reference position, up to 3.9 m away (every
+            # manager is asked with the reference position as its own, as in the manager-level sequences)
+            for s_, pidx in zip(st, params["layout"]):
+                if not ci.pos_near(pidx):
+                    raise AssertionError("closed-loop layout uses positions within range only")
+                lat_w, lon_w = ci.pos_latlon(pidx)
+                s_.lat, s_.lon = lat_w / 1e7, lon_w / 1e7
         lead, joiners = st[0], st[1:1 + nj]
         dts = params["dts"]
         rounds = [0]
@@ -800,6 +808,8 @@ def closed_loop(ctx, params):
                                                     "less than timeClusterUniquenessThreshold ago"))
             for _ in range(2):
                 round_()
+            if cid2 is None:
+                members2 = []       # nothing to join; the failure is recorded above
             for m in members2:
                 seen_id = advertised.get(m.sid)
                 if seen_id != cid2:
@@ -819,7 +829,8 @@ def closed_loop(ctx, params):
                     fails.append(("closed_loop_join_never_completes",
                                   f"second cycle: station {m.sid} initiated a join towards the advertised cluster {cid2} "
                                   f"but is {ci.STATE_NAMES[o['vst']]} (cluster {o['cid']}) after notification + success time"))
-            lead2.command(["breakup", params["reason"]])
+            if cid2 is not None:
+                lead2.command(["breakup", params["reason"]])
             for _ in range(3):
                 round_()
             for m in members2:
@@ -845,6 +856,7 @@ def closed_loop(ctx, params):
                 fails.append((cls, f"station {s.sid}, event {i}: {detail}"))
         nev = sum(len(s.events) for s in st)
         ctx.count(nev, f"closed_loop_{1 + nj}_stations_{ending}" + ("_second_cycle" if params.get("second") else "")
+                  + ("_spread_layout" if params.get("layout") else "")
                   + ("_varied_rounds" if max(dts) > 130 or min(dts) < 100 else ""))
         ctx.nontriv(("loop", nj, ending, params.get("reason"), tuple(params["dts"]), tuple(params["join_offsets"]),
                      bool(params.get("second"))))
@@ -897,6 +909,10 @@ def loop_params2(rng, joiners, ending, varied=True, second=False):
         # the cancel ends at most 1500 + 700 ticks after them (timeClusterJoinNotification = 3072 ticks)
         p["cancel_after"] = rng.choice((103, 512, 1024, 1500))
         p["join_offsets"] = [0]
+    if ending in ("cancel", "leave"):
+        # these two endings expect the leader to HEAR the leave indication: the station must have a VAM generation event
+        # within timeClusterLeaveNotification (1024 ticks) of the command, i.e. a round shorter than that (a station that
+        # generates VAMs every 1.3 s never puts a 1 s notification on the air - that is not a clause of C18)
         p["dts"] = [min(d, 700) for d in p["dts"]]
     if second:
         p["second"] = True
@@ -914,9 +930,18 @@ def audit_loops(ctx, n):
     for e in ("breakup", "silent", "leave", "cpm"):
         plan += [(rng.choice((1, 2)), e, True, False)]
     plan += [(1, "breakup", False, True), (2, "breakup", True, True)]
+    near_pos = [i for i in range(len(ci.POSITIONS)) if ci.pos_near(i) and ci.POSITIONS[i] != (0.0, 0.0)]
     for k in range(n):
         for nj, e, varied, second in plan:
             res = closed_loop(ctx, loop_params2(rng, nj, e, varied=varied, second=second))
+            if k == 0:
+                ctx.sample({"closed_loop": {"joiners": nj, "ending": e, "second_cycle": second}, "result": res}, cap=14)
+        # the same with the stations spread around the reference position instead of in a row to the north of it
+        for nj, e, varied, second in ((1, "breakup", False, True), (2, "leave", False, False), (2, "silent", True, False)):
+            p = loop_params2(rng, nj, e, varied=varied, second=second)
+            p["layout"] = [17] + [i for i in near_pos if ci.POSITIONS[i][1] != 0.0][:5]
+            rng.shuffle(p["layout"])
+            res = closed_loop(ctx, p)
             if k == 0:
                 ctx.sample({"closed_loop": {"joiners": nj, "ending": e, "second_cycle": second}, "result": res}, cap=14)
 
@@ -1002,7 +1027,10 @@ def run(ctx):
                 "reduced alphabet from five start states, hand-written threshold-boundary scenarios, adaptive random "
                 "sequences of depth 200 (VAMs as unit-test dicts, as decoded structures, and through the real "
                 "coder), malformed VAM dicts, and 2-/3-station closed loops (plus three by-standers) through "
-                "VAMTransmissionManagement, VAMCoder and VAMReceptionManagement; every executed event is counted as one "
+                "VAMTransmissionManagement, VAMCoder and VAMReceptionManagement; audit round: senders in every direction "
+                "at 1 / 3.8 / 6.3 / 111 m, received leave indications with every reason, closed loops ending in a "
+                "cancelled join, a failed join, VRU_ROLE_OFF of a member / of the leader, rounds of 50 ms .. 1.3 s, and a "
+                "second cluster with the roles swapped; every executed event is counted as one "
                 "evaluation; a sequence is non-trivial when it visits at least two different control states (state "
                 "name, join / leave sub-state, kind of operation container), distinct by (start time, station, events)")
     vc, K = ci.modules()
